@@ -99,7 +99,36 @@ package scen
 //
 // Scenarios: dual-faulty (failing dials / requests, target connection drops),
 // dual-clean (every peer answers), dual-findpeer (FindPeer only, target known
-// on both sides); the inbound (server) side is in c15_server.go.
+// on both sides), dual-write-errors (below); the inbound (server) side is in
+// c15_server.go, the FindPeer merge over two independent hosts in
+// c15_split.go.
+//
+// dual-write-errors. The property quantifies the write clause over "every
+// combination of ... per-DHT results and errors" and over configurations: the
+// side is chosen by the WAN table alone, whatever the chosen inner DHT then
+// answers. The other scenarios never make the routed inner write fail (an
+// IpfsDHT write whose recipients all fail still returns nil), so this one
+// generates, independently for each side, the ways an inner Provide / PutValue
+// reports an error while the caller's context is alive:
+//   - configuration (dual.WanDHTOption / dual.LanDHTOption): a stricter record
+//     validator on one side only (rejects the value), values disabled,
+//     providers disabled;
+//   - a datastore read or write error on one side's own datastore (armed right
+//     before the call: simds.FailNext);
+//   - Provide under a caller deadline with the lookup stalled until shortly
+//     before it (time is advanced to a drawn fraction of the deadline while the
+//     lookup's requests are unanswered): the inner Provide then reports a
+//     deadline error although the caller's context may still be alive.
+// Only Provide and PutValue are run. The rules are the write rules above:
+// write-side and write-store (a) are judged unconditionally - whatever the
+// routed side answered, the other inner DHT saw no request for the key, its
+// datastore no write and its provider store does not list the node. Clause
+// (b) of write-store and write-no-traffic presuppose that the routed inner
+// write got as far as its local record; they are skipped for an operation
+// whose routed side carries an injected failure source (configuration that
+// refuses this kind of write, or an armed datastore fault) - "may fail, must
+// not spill over". A failure source on the side that is NOT routed to relaxes
+// nothing: that side must not be touched at all.
 //
 // Determinism: a cancelled RPC/dial only ever observes its cancellation (a
 // reply delivered to it would be processed racily, pitfall 3). When
@@ -150,6 +179,15 @@ var c15Faults = []string{
 	"probe_store_putvalue_checked", "probe_store_provide_checked", "probe_provide_local_only",
 }
 
+// fired by dual-write-errors only
+var c15WriteErrFaults = []string{
+	"fault_ds_error_get", "fault_ds_error_put", "fault_lookup_stalled_to_deadline",
+	"probe_werr_cfg_validator_rejects", "probe_werr_cfg_disabled", "probe_werr_ds_fault_on_routed_side", "probe_werr_deadline_error_ctx_alive",
+	"probe_werr_routed_failed_other_table_nonempty", "probe_werr_fault_on_other_side_only", "probe_werr_wan_empty_lan_failed",
+	"probe_store_checked_both_nonempty", "probe_store_checked_wan_only", "probe_store_checked_lan_only", "probe_store_checked_both_empty",
+	"probe_wan_active_wan_used", "probe_wan_empty_lan_used", "time_advance", "cancel_observed",
+}
+
 func init() {
 	common := func(sc *sim.Scenario) *sim.Scenario {
 		sc.Real = []string{"dual.New option layering (WAN/LAN query, routing-table, diversity and address filters, /lan protocol extension)",
@@ -166,6 +204,11 @@ func init() {
 	// seeded, the target's connection may drop in mid-search (the only way the
 	// two inner results can differ, see judgeFindPeer)
 	sim.Register(common(&sim.Scenario{Prop: "C15", Name: "dual-findpeer", Weight: 1, Run: func(s *sim.Sim) { c15Run(s, true, "findpeer") }}))
+	// writes only, with per-side error sources (see the header)
+	we := common(&sim.Scenario{Prop: "C15", Name: "dual-write-errors", Weight: 1, Run: func(s *sim.Sim) { c15Run(s, true, "writeerr") }})
+	we.Faults = c15WriteErrFaults
+	we.Stub = append(we.Stub, "per-side datastores (simds, injected read/write errors)")
+	sim.Register(we)
 }
 
 // ---------------------------------------------------------------------------
@@ -352,23 +395,38 @@ type c15Op struct {
 	tConnPrev       bool
 	tConnBeforeLast bool
 	disconnected    bool
+
+	// dual-write-errors
+	deadline   time.Duration // caller deadline (0: none)
+	stallPct   int           // the lookup may be stalled until this percentage of the deadline
+	stalled    bool
+	startAt    time.Duration
+	ctx        context.Context // the caller's context (read at quiescent points only)
+	dsPending  map[string]bool // side -> a datastore fault is armed on that side's datastore at the call
+	ctxLiveEnd bool            // the caller's context was alive when the call had returned
 }
 
 type c15World struct {
 	s      *sim.Sim
 	faulty bool
-	u      *simnet.Universe
-	pal    *c15Palette
-	host   *simhost.Host
-	d      *dual.DHT
-	snd    map[string]*simnet.Sender
-	ds     map[string]*simds.DS // one datastore per inner DHT
-	k      map[string]int
-	peers  map[peer.ID]*c15Peer
-	order  []*c15Peer // canonical order
-	t      *c15Peer
-	ops    []*c15Op
-	cl     opSet
+	focus  string
+	// dual-write-errors: per-side configuration that makes a kind of write fail
+	// ("" | "reject" | "novalues" | "noproviders") and datastore faults armed so far
+	cfgErr  map[string]string
+	dsArmed map[string]int
+	refused bool // some write met an injected failure on its routed side and reported an error
+	u       *simnet.Universe
+	pal     *c15Palette
+	host    *simhost.Host
+	d       *dual.DHT
+	snd     map[string]*simnet.Sender
+	ds      map[string]*simds.DS // one datastore per inner DHT
+	k       map[string]int
+	peers   map[peer.ID]*c15Peer
+	order   []*c15Peer // canonical order
+	t       *c15Peer
+	ops     []*c15Op
+	cl      opSet
 
 	selfAddrs []ma.Multiaddr
 	psStart   map[peer.ID]map[string]bool
@@ -424,8 +482,27 @@ func c15Shuffle(seed uint64) func(n int, swap func(i, j int)) {
 	}
 }
 
+// c15StrictValidator is the rank validator with a stricter acceptance policy
+// (a minimal rank): installed on one side only it makes that inner DHT refuse
+// a record the other one accepts.
+type c15StrictValidator struct {
+	rankValidator
+	minRank int
+}
+
+func (v c15StrictValidator) Validate(key string, value []byte) error {
+	if err := v.rankValidator.Validate(key, value); err != nil {
+		return err
+	}
+	if r, _, _, _ := parseRankValue(value); r < v.minRank {
+		return fmt.Errorf("strict rank validator: rank %d below the minimum %d", r, v.minRank)
+	}
+	return nil
+}
+
 func c15Build(s *sim.Sim, faulty bool, focus string) *c15World {
-	w := &c15World{s: s, faulty: faulty, snd: map[string]*simnet.Sender{}, k: map[string]int{}, peers: map[peer.ID]*c15Peer{},
+	w := &c15World{s: s, faulty: faulty, focus: focus, cfgErr: map[string]string{}, dsArmed: map[string]int{},
+		snd: map[string]*simnet.Sender{}, k: map[string]int{}, peers: map[peer.ID]*c15Peer{},
 		psStart: map[peer.ID]map[string]bool{}, everWanRT: map[peer.ID]bool{}, admissible: map[peer.ID]bool{}, seenDone: map[*simnet.RPC]bool{},
 		checkedRPC: map[string]int{}, hiddenRef: map[peer.ID]string{}, contacted: map[peer.ID]bool{}, lateAdmit: map[peer.ID]bool{},
 		wanValid: map[string]bool{}, lanValid: map[string]bool{}, refAdm: map[peer.ID]bool{}, psOnlyRef: map[peer.ID]bool{}}
@@ -537,6 +614,22 @@ func c15Build(s *sim.Sim, faulty bool, focus string) *c15World {
 	// one datastore per inner DHT (what the default configuration gives them as
 	// well: each dht.New creates its own in-memory map), here observable
 	w.ds = map[string]*simds.DS{c15W: simds.New(s, "ds-"+c15W), c15L: simds.New(s, "ds-"+c15L)}
+	// dual-write-errors: each side may be configured so that one kind of write
+	// is refused by that inner DHT (tape value 0: ordinary configuration)
+	sideOpts := map[string][]dht.Option{}
+	if focus == "writeerr" {
+		for _, side := range []string{c15W, c15L} {
+			switch w.cfgErr[side] = []string{"", "reject", "novalues", "noproviders"}[s.Draw("cfg-err-"+side, 4)]; w.cfgErr[side] {
+			case "reject":
+				// stricter policy on this side only: the ranks this scenario writes are refused
+				sideOpts[side] = []dht.Option{dht.NamespacedValidator("r", c15StrictValidator{minRank: 1000})}
+			case "novalues":
+				sideOpts[side] = []dht.Option{dht.DisableValues()}
+			case "noproviders":
+				sideOpts[side] = []dht.Option{dht.DisableProviders()}
+			}
+		}
+	}
 	d, err := dual.New(w.host,
 		// dual.New applies the caller's options after its own, and ProtocolPrefix
 		// overwrites what ProtocolExtension("/lan") appended: a prefix passed as
@@ -546,6 +639,7 @@ func c15Build(s *sim.Sim, faulty bool, focus string) *c15World {
 			dht.NamespacedValidator("r", rankValidator{}), dht.MaxRecordAge(100000*time.Hour), dht.WithCustomMessageSender(builder)),
 		dual.WanDHTOption(dht.ProtocolPrefix("/sim"), dht.BucketSize(w.k[c15W]), dht.Concurrency(alphaW), dht.Resiliency(betaW), dht.Datastore(w.ds[c15W])),
 		dual.LanDHTOption(dht.ProtocolPrefix("/sim"), dht.ProtocolExtension(dual.LanExtension), dht.BucketSize(w.k[c15L]), dht.Concurrency(alphaL), dht.Resiliency(betaL), dht.Datastore(w.ds[c15L])),
+		dual.WanDHTOption(sideOpts[c15W]...), dual.LanDHTOption(sideOpts[c15L]...),
 	)
 	if err != nil {
 		panic(err)
@@ -602,7 +696,11 @@ func c15Build(s *sim.Sim, faulty bool, focus string) *c15World {
 	kinds := []string{"provide", "putvalue", "getvalue", "findpeer"}
 	for i := 0; i < nOps; i++ {
 		k := kinds[s.Draw("op-kind", len(kinds))]
-		if focus != "" {
+		switch focus {
+		case "":
+		case "writeerr":
+			k = map[string]string{"provide": "provide", "putvalue": "putvalue", "getvalue": "provide", "findpeer": "putvalue"}[k]
+		default:
 			k = focus
 		}
 		w.ops = append(w.ops, &c15Op{kind: k})
@@ -622,6 +720,10 @@ func c15Build(s *sim.Sim, faulty bool, focus string) *c15World {
 			o.wire = string(sum)
 			if o.kind == "provide" && s.Chance("provide-local-only", 1, 4) {
 				o.announce = false
+			}
+			if o.kind == "provide" && focus == "writeerr" && o.announce && s.Chance("deadline", 1, 3) {
+				o.deadline = []time.Duration{20 * time.Second, 5 * time.Second, 90 * time.Second}[s.Draw("deadline-len", 3)]
+				o.stallPct = []int{97, 92, 50, 99}[s.Draw("stall-pct", 4)]
 			}
 		case "putvalue", "getvalue":
 			o.strKey = fmt.Sprintf("/r/c15-%d-%d", useed, i)
@@ -693,7 +795,7 @@ func c15Build(s *sim.Sim, faulty bool, focus string) *c15World {
 	// connection, so WAN seeds are connected while they are added.
 	seedMode := func(l string) int { // 0,1 some; 2 none; 3 all
 		m := s.Draw(l, 4)
-		if focus != "" && m == 2 {
+		if focus == "findpeer" && m == 2 {
 			m = 3
 		}
 		return m
@@ -754,6 +856,9 @@ func c15Build(s *sim.Sim, faulty bool, focus string) *c15World {
 	s.Summary["cfg"] = fmt.Sprintf("faulty=%v wan=%d(hidden %d) lan=%d prov=%d Kw=%d aw=%d bw=%d Kl=%d al=%d bl=%d tables=%d/%d self=[%s] ops=%s",
 		faulty, nW, nh, nL, nX, w.k[c15W], alphaW, betaW, w.k[c15L], alphaL, betaL, d.WAN.RoutingTable().Size(), d.LAN.RoutingTable().Size(),
 		strings.Join(selfCls, ","), strings.Join(opk, ","))
+	if focus == "writeerr" {
+		s.Summary["cfg"] = fmt.Sprintf("%v cfgerr=%q/%q", s.Summary["cfg"], w.cfgErr[c15W], w.cfgErr[c15L])
+	}
 	return w
 }
 
@@ -1086,8 +1191,11 @@ func (w *c15World) keyRPCs(side string, from int, wire string, upTo int) []*simn
 func (w *c15World) start(o *c15Op) {
 	s := w.s
 	base, cancel := context.WithCancel(context.Background())
+	if o.deadline > 0 {
+		base, cancel = context.WithTimeout(context.Background(), o.deadline)
+	}
 	ctx := sim.WithTag(base, o.tag)
-	o.cancel = cancel
+	o.cancel, o.ctx, o.startAt = cancel, ctx, s.Now()
 	d := w.d
 	o.op = w.cl.Go(s, o.kind, func() (any, error) {
 		switch o.kind {
@@ -1134,6 +1242,9 @@ func (w *c15World) runOp(o *c15Op) bool {
 	o.startStep = s.Steps
 	o.tConnPrev = w.connected(w.t.p.ID)
 	s.Tracef("op %s %s wanRT=%d lanRT=%d", o.tag, o.kind, len(o.wanRT), len(o.lanRT))
+	if w.focus == "writeerr" {
+		w.armDSFault(o)
+	}
 	w.start(o)
 	s.Quiesce()
 	idle := 0
@@ -1142,6 +1253,7 @@ func (w *c15World) runOp(o *c15Op) bool {
 			o.judged = true
 			o.endStep = s.Steps
 			o.tConnBeforeLast = o.tConnPrev
+			o.ctxLiveEnd = o.ctx.Err() == nil
 			w.judge(o)
 			if o.racy {
 				// see the header: no draws, traces or checks from here on
@@ -1163,6 +1275,15 @@ func (w *c15World) runOp(o *c15Op) bool {
 		if s.Chance("tick", 1, 16) {
 			s.Sleep(time.Duration(1+s.Draw("tick-ms", 40)) * time.Millisecond)
 			s.Count("time_advance")
+		}
+		if o.deadline > 0 && !o.stalled && !o.op.Done && len(s.Parked()) > 0 && s.Chance("stall", 1, 5) {
+			// nobody answers until a drawn fraction of the caller's deadline has passed
+			o.stalled = true
+			if d := o.startAt + o.deadline*time.Duration(o.stallPct)/100 - s.Now(); d > 0 {
+				s.Tracef("stall %s until %d%% of the deadline", o.tag, o.stallPct)
+				s.Sleep(d)
+				s.Count("fault_lookup_stalled_to_deadline")
+			}
 		}
 		acts := w.actions(o)
 		if len(acts) == 0 {
@@ -1243,7 +1364,38 @@ func (w *c15World) judgeWrite(o *c15Op) {
 	}
 	putsWant, putsOther := w.dsPuts(want, o.dsFrom[want]), w.dsPuts(other, o.dsFrom[other])
 	s.Tracef("done %s %s err=%s want=%s rpcs=%d/%d puts=%d/%d", o.tag, kind, c15ErrText(o.op.Err), want, len(onWant), len(onOther), len(putsWant), len(putsOther))
-	w.judgeWriteStore(o, kind, want, other, putsWant, putsOther)
+	// dual-write-errors: a failure source on the routed side relaxes the clauses
+	// that presuppose the inner write got as far as its local record; one on the
+	// other side relaxes nothing
+	mayFail := w.injected(o, want)
+	w.refused = w.refused || (mayFail != "" && o.op.Err != nil)
+	w.judgeWriteStore(o, kind, want, other, putsWant, putsOther, mayFail != "")
+	if w.focus == "writeerr" {
+		otherRT := o.wanRT
+		if other == c15L {
+			otherRT = o.lanRT
+		}
+		switch {
+		case mayFail == "reject" && o.op.Err != nil:
+			s.Count("probe_werr_cfg_validator_rejects")
+		case (mayFail == "novalues" || mayFail == "noproviders") && o.op.Err != nil:
+			s.Count("probe_werr_cfg_disabled")
+		case mayFail == "ds" && o.op.Err != nil:
+			s.Count("probe_werr_ds_fault_on_routed_side")
+		case mayFail == "" && w.injected(o, other) != "":
+			s.Count("probe_werr_fault_on_other_side_only")
+		}
+		if o.op.Err != nil && o.ctxLiveEnd && o.deadline > 0 && mayFail == "" {
+			s.Count("probe_werr_deadline_error_ctx_alive")
+		}
+		if o.op.Err != nil && o.ctxLiveEnd && len(otherRT) > 0 {
+			// the state in which "try the other DHT" would have had somewhere to go
+			s.Count("probe_werr_routed_failed_other_table_nonempty")
+		}
+		if o.op.Err != nil && o.ctxLiveEnd && want == c15L && len(o.lanRT) > 0 {
+			s.Count("probe_werr_wan_empty_lan_failed")
+		}
+	}
 	if len(onOther) > 0 {
 		r := w.canon(onOther)[0]
 		s.Violate("write-side", "%s with WAN table size %d at the call: %s for the key was sent to %s through the %s DHT (expected side: %s)",
@@ -1257,7 +1409,7 @@ func (w *c15World) judgeWrite(o *c15Op) {
 			dials++
 		}
 	}
-	if len(wantRT) > 0 && len(onWant) == 0 && dials == 0 && o.announce {
+	if len(wantRT) > 0 && len(onWant) == 0 && dials == 0 && o.announce && mayFail == "" {
 		s.Violate("write-no-traffic", "%s with WAN table size %d, LAN table size %d at the call produced no dial and no RPC on the %s DHT (err=%v)",
 			o.kind, len(o.wanRT), len(o.lanRT), strings.ToUpper(want), o.op.Err)
 	}
@@ -1273,6 +1425,50 @@ func (w *c15World) judgeWrite(o *c15Op) {
 		s.Count("probe_wan_advertise_nothing_public")
 	}
 	s.State("%s want=%s err=%v traffic=%v lanRT=%v", kind, want, o.op.Err != nil, len(onWant) > 0, len(o.lanRT) > 0)
+}
+
+// armDSFault (dual-write-errors): a drawn datastore fault - the next read or
+// the next write of one side's own datastore fails. A fault armed on the side
+// the write is not routed to stays armed (that datastore must not be touched);
+// o.dsPending tells for which sides a fault is outstanding at the call.
+func (w *c15World) armDSFault(o *c15Op) {
+	switch w.s.Draw("ds-fault", 5) {
+	case 1:
+		w.ds[c15W].FailNext("get", 1)
+		w.dsArmed[c15W]++
+	case 2:
+		w.ds[c15W].FailNext("put", 1)
+		w.dsArmed[c15W]++
+	case 3:
+		w.ds[c15L].FailNext("get", 1)
+		w.dsArmed[c15L]++
+	case 4:
+		w.ds[c15L].FailNext("put", 1)
+		w.dsArmed[c15L]++
+	}
+	o.dsPending = map[string]bool{}
+	for _, side := range []string{c15W, c15L} {
+		fired := 0
+		for _, r := range w.ds[side].Log() {
+			if r.Err == simds.ErrInjected {
+				fired++
+			}
+		}
+		o.dsPending[side] = w.dsArmed[side] > fired
+	}
+}
+
+// injected (dual-write-errors): the failure source this operation meets on the
+// given side, "" if none: configuration that refuses this kind of write, or an
+// armed datastore fault.
+func (w *c15World) injected(o *c15Op, side string) string {
+	switch c := w.cfgErr[side]; {
+	case (c == "reject" || c == "novalues") && o.kind == "putvalue", c == "noproviders" && o.kind == "provide":
+		return c
+	case o.dsPending[side]:
+		return "ds"
+	}
+	return ""
 }
 
 // dsPuts: the writes applied to one side's datastore since log position from.
@@ -1296,7 +1492,11 @@ func (w *c15World) selfProvides(o *c15Op) (map[string]bool, bool) {
 			side string
 			d    *dht.IpfsDHT
 		}{{c15W, w.d.WAN}, {c15L, w.d.LAN}} {
-			provs, err := sd.d.ProviderStore().GetProviders(context.Background(), o.cid.Hash())
+			ps := sd.d.ProviderStore()
+			if ps == nil {
+				continue // providers disabled on this side (dual-write-errors)
+			}
+			provs, err := ps.GetProviders(context.Background(), o.cid.Hash())
 			if err != nil {
 				return nil, err
 			}
@@ -1313,7 +1513,7 @@ func (w *c15World) selfProvides(o *c15Op) (map[string]bool, bool) {
 }
 
 // judgeWriteStore is rule write-store (see the header).
-func (w *c15World) judgeWriteStore(o *c15Op, kind, want, other string, putsWant, putsOther []*simds.Rec) {
+func (w *c15World) judgeWriteStore(o *c15Op, kind, want, other string, putsWant, putsOther []*simds.Rec, mayFail bool) {
 	s := w.s
 	where := fmt.Sprintf("%s with WAN table size %d, LAN table size %d at the call (err=%s)", kind, len(o.wanRT), len(o.lanRT), c15ErrText(o.op.Err))
 	// (a) the side the write was not routed to
@@ -1333,7 +1533,7 @@ func (w *c15World) judgeWriteStore(o *c15Op, kind, want, other string, putsWant,
 			s.Violate("write-store", "%s: the %s DHT's provider store lists the node as provider of the key; the write belongs to the %s DHT (listed there: %v)",
 				where, strings.ToUpper(other), strings.ToUpper(want), has[want])
 		}
-		if !has[want] {
+		if !has[want] && !mayFail {
 			// (b)
 			s.Violate("write-store", "%s: the %s DHT's provider store does not list the node as provider of the key after Provide returned", where, strings.ToUpper(want))
 		}
@@ -1343,7 +1543,7 @@ func (w *c15World) judgeWriteStore(o *c15Op, kind, want, other string, putsWant,
 		for _, r := range putsWant {
 			stored = stored || bytes.Contains(r.Val, o.val)
 		}
-		if !stored {
+		if !stored && !mayFail {
 			// (b)
 			s.Violate("write-store", "%s: the %s DHT's datastore received no entry containing the record's value (%d writes)", where, strings.ToUpper(want), len(putsWant))
 		}
@@ -1596,7 +1796,9 @@ func c15Run(s *sim.Sim, faulty bool, focus string) {
 		}
 	}
 	w.finalProbes()
-	s.NonTrivial = w.traffic
+	// (dual-write-errors: a write refused before any traffic is still an
+	// evaluation of the clause - the other side must stay untouched)
+	s.NonTrivial = w.traffic || w.refused
 	for _, o := range w.ops {
 		if o.cancel != nil {
 			o.cancel()
